@@ -1,6 +1,22 @@
-(* C01 — stub: model not yet built (the property is listed under not_applicable until it is). *)
+(* C01 — wire functions over the shared encoder model (Enc/JsonEnc.v) and the JSON
+   grammar/parser (Enc/JsonParse.v). *)
 From Coq Require Import List ZArith Bool.
+From Coq.Strings Require Import Byte.
 Import ListNotations.
-From Zap Require Import Base.Wire.
-Definition model (i : sx) : sx := SL [].
-Definition spec (i o : sx) : bool := false.
+From Zap Require Import Base.Wire Enc.Bytes Enc.Fields Enc.JsonEnc Enc.JsonParse Enc.WireEnc.
+
+Definition json_line (ec : ecase) : option bytes :=
+  let c := ec_cfg ec in
+  encode_entry c false (with_chain c false (ec_ctxs ec)) (ec_ent ec) (ec_fs ec).
+
+(* observation: (line) — or () if the call panicked *)
+Definition model (i : sx) : sx :=
+  match json_line (dec_case i) with Some out => SL [SB out] | None => SL [] end.
+
+(* the property's oracle: exactly one JSON object, then the configured line ending,
+   no control character or line break inside the object *)
+Definition spec (i o : sx) : bool :=
+  match sx_l o with
+  | [SB out] => line_ok (resolved_le (ec_cfg (dec_case i))) out
+  | _ => false
+  end.
